@@ -18,6 +18,7 @@ func init() {
 			c.LockerInternals("C15") // holding the key's lock means holding it: Lock returns only with the key's one mutex acquired
 			c.RulerKeyAgreement("C01")
 			c.RulerPositions("C01")
+			c.MetadataImmutable("C01")
 			c.SignIffApproved("C01", map[string]bool{"SignBeaconAttestation": true, "SignBeaconAttestations": true})
 			c.SigningRootProvenance("C01")
 			c.StoreCommit("C03", s)
